@@ -15,7 +15,7 @@ import "verif.local/lab/spec"
 //
 // The decision is drawn from a PRNG stream derived from the design's stream at the moment of the decision
 // (never from g.r), so a design without a drawn method is exactly what it was before this file existed, and
-// a drawn one differs by the MultipartRequest() line only.
+// a drawn one differs by the MultipartRequest() line (and, for half of them, one cookie attribute) only.
 
 // genMultipart decides whether the endpoint of m is a multipart endpoint (Runtime mode, Opts.Multipart).
 func (x *g) genMultipart(sv *spec.Service, m *spec.Method, hasBody bool, verb string) {
@@ -52,6 +52,9 @@ func (x *g) genMultipart(sv *spec.Service, m *spec.Method, hasBody bool, verb st
 	if nparams > 0 {
 		num, den = 1, 5
 	}
+	if len(h.Cookies) > 0 {
+		num, den = 1, 2 // cookies are the rarest request element: keep a multipart method merging one in every run
+	}
 	if x.o.MultipartFew {
 		den *= 3
 	}
@@ -62,6 +65,22 @@ func (x *g) genMultipart(sv *spec.Service, m *spec.Method, hasBody bool, verb st
 	x.s.AddFeature("multipart", "multipart-request")
 	if nparams > 0 {
 		x.s.AddFeature("multipart-with-params")
+	}
+	// cookies are the rarest request element (one attribute in twenty): half of the multipart methods whose
+	// payload object the method owns get an optional one to merge, under a wire name of its own
+	if len(h.Cookies) == 0 && m.Payload.Type.Kind == spec.Object && mr.Chance(1, 2) {
+		used := map[string]bool{}
+		for _, a := range rt.Attrs {
+			used[spec.Norm(a.Name)] = true
+		}
+		n := "session_ck"
+		for used[spec.Norm(n)] {
+			n += "x"
+		}
+		rt.Attrs = append(rt.Attrs, &spec.Attr{Name: n, Type: &spec.Type{Kind: []string{spec.Int, spec.String, spec.UInt32}[mr.Intn(3)]}})
+		// (optional: a required cookie is the trigger of a listed C04 finding that hides parameter violations)
+		h.Cookies = append(h.Cookies, spec.Loc{Attr: n, Wire: []string{"", "MPSID", "mp-sess"}[mr.Intn(3)]})
+		x.s.AddFeature("cookie", "multipart-with-params")
 	}
 	if len(h.Cookies) > 0 {
 		x.s.AddFeature("multipart-with-cookie")
